@@ -384,6 +384,59 @@ def r6_index(src, log, names=None):
     return _replace(src, edits)
 
 
+def r8_constpat(src, log, consts):
+    """a `const` of struct type used as a pattern, e.g. `ResolveResult::Bound(xmlns::BASE)` ->
+    `ResolveResult::Bound(ns__k)` plus `ns__k == xmlns::BASE &&` at the head of the arm's guard
+    (Rust's own semantics for structural-match constants)."""
+    n = 0
+    for cpath in consts:
+        parts = [x for x in re.split(r"(::)", cpath) if x]
+        flat = []
+        for x in parts:
+            flat.extend([":", ":"] if x == "::" else [x])
+        while True:
+            toks = lex(src); m = match_brackets(toks); s = sig(toks)
+            hit = None
+            for k in range(len(s) - len(flat) - 1):
+                if toks[s[k]].text == "(" and [toks[s[k + 1 + d]].text for d in range(len(flat))] == flat \
+                        and toks[s[k + 1 + len(flat)]].text == ")" and toks[s[k - 1]].kind == "ident":
+                    # pattern position: an `=>` follows before any `;` at the arm level
+                    j = k + 2 + len(flat)
+                    guard_if = None
+                    arrow = None
+                    while j + 1 < len(s):
+                        tj = toks[s[j]]
+                        if tj.text in "([{":
+                            j = s.index(m[s[j]]) + 1
+                            continue
+                        if tj.kind == "ident" and tj.text == "if" and guard_if is None:
+                            guard_if = j
+                        if tj.text == "=" and toks[s[j + 1]].text == ">":
+                            arrow = j
+                            break
+                        if tj.text == ";":
+                            break
+                        j += 1
+                    if arrow is None:
+                        continue
+                    hit = (k, guard_if, arrow)
+                    break
+            if hit is None:
+                break
+            k, guard_if, arrow = hit
+            var = "ns__%d" % n
+            edits = [(toks[s[k + 1]].start, toks[s[k + len(flat)]].end, var)]
+            if guard_if is not None:
+                edits.append((toks[s[guard_if]].end, toks[s[guard_if]].end, " %s == %s &&" % (var, cpath)))
+            else:
+                edits.append((toks[s[arrow]].start, toks[s[arrow]].start, "if %s == %s " % (var, cpath)))
+            src = _replace(src, edits)
+            n += 1
+    log["R8"] = log.get("R8", 0) + n
+    return src
+
+
+
 def r11_bytelits(src, log, table):
     """b"lit" -> blit_<n>()  ; table collects the generated external_body functions"""
     toks = lex(src)
@@ -850,6 +903,8 @@ def _gen_function(kv, sections, repo, res: UnitResult, variant) -> list:
             body = r14_constcall(body, log, set(kv.get("consts", "").split(",")))
         elif r == "R5":
             body = r5_break(body, log)
+        elif r == "R8":
+            body = r8_constpat(body, log, [c for c in kv.get("constpats", "").split(",") if c])
         elif r in RULES:
             body = RULES[r](body, log)
         else:
